@@ -155,6 +155,13 @@ theorem evalLit_spec {cells : List (List Int)} {lit : Lit} {v : Val} {cells' : L
   | list l =>
     simp [evalLit] at h; obtain ⟨rfl, rfl⟩ := h
     exact ⟨⟨[l], rfl⟩, by simp [Val.cells]⟩
+  | tup ls =>
+    simp [evalLit] at h; obtain ⟨rfl, rfl⟩ := h
+    refine ⟨⟨ls, rfl⟩, ?_⟩
+    intro c hc
+    simp only [Val.cells, List.mem_map, List.mem_range] at hc
+    obtain ⟨j, hj, rfl⟩ := hc
+    simp; omega
 
 theorem deepcopyVal_spec {cells : List (List Int)} {v0 v : Val} {cells' : List (List Int)}
     (h : deepcopyVal cells v0 = (v, cells')) :
@@ -165,6 +172,13 @@ theorem deepcopyVal_spec {cells : List (List Int)} {v0 v : Val} {cells' : List (
   | ref c0 =>
     simp [deepcopyVal] at h; obtain ⟨rfl, rfl⟩ := h
     exact ⟨⟨[deref cells c0], rfl⟩, by simp [Val.cells]⟩
+  | tup cs =>
+    simp [deepcopyVal] at h; obtain ⟨rfl, rfl⟩ := h
+    refine ⟨⟨cs.map (deref cells), rfl⟩, ?_⟩
+    intro c hc
+    simp only [Val.cells, List.mem_map, List.mem_range] at hc
+    obtain ⟨j, hj, rfl⟩ := hc
+    simp; omega
 
 theorem copySlots_spec : ∀ (ms : List (Slot × CellId)) (cells : List (List Int))
     (ms' : List (Slot × CellId)) (cells' : List (List Int)),
@@ -199,6 +213,7 @@ theorem validate_spec {cells cells' : List (List Int)} {p : PObj} {v : Val}
   · cases v with
     | none => simp at h
     | ref c => simp at h
+    | tup cs => simp at h
     | int n =>
       simp only at h
       cases hb : boundsOf cells p with
@@ -215,6 +230,7 @@ theorem validate_spec {cells cells' : List (List Int)} {p : PObj} {v : Val}
   · cases v with
     | none => simp at h
     | ref c => simp at h
+    | tup cs => simp at h
     | int n =>
       cases ho : aget p.mslots Slot.objects with
       | none => simp [ho] at h
@@ -1025,7 +1041,17 @@ theorem doMutVal_cells (w : World) (t : Target) (x : Name) (n : Int) :
   · exact ⟨w.cells, rfl, rfl⟩
   · exact ⟨w.cells, rfl, rfl⟩
   · exact ⟨w.cells, rfl, rfl⟩
+  · exact ⟨w.cells, rfl, rfl⟩
   · exact ⟨_, rfl, by simp⟩
+
+theorem doMutItem_cells (w : World) (t : Target) (x : Name) (i : Nat) (n : Int) :
+    ∃ cells', (doMutItem w t x i n).1 = { w with cells := cells' } ∧ cells'.length = w.cells.length := by
+  unfold doMutItem
+  split
+  · split
+    · exact ⟨_, rfl, by simp⟩
+    · exact ⟨w.cells, rfl, rfl⟩
+  · exact ⟨w.cells, rfl, rfl⟩
 
 
 theorem allocSlots_spec : ∀ (sl : List (Slot × List Int)) (cells : List (List Int))
@@ -1269,6 +1295,7 @@ theorem validate_safe {cells cells' : List (List Int)} {p : PObj} {v : Val}
   · cases v with
     | none => simp at h
     | ref c => simp at h
+    | tup cs => simp at h
     | int n =>
       simp only at h
       cases hb : boundsOf cells p with
@@ -1285,6 +1312,7 @@ theorem validate_safe {cells cells' : List (List Int)} {p : PObj} {v : Val}
   · cases v with
     | none => simp at h
     | ref c => simp at h
+    | tup cs => simp at h
     | int n =>
       cases ho : aget p.mslots Slot.objects with
       | none => simp [ho] at h
@@ -1336,6 +1364,7 @@ theorem setupKwargs_frame (w : World) (k : ClsId) (hb : ∀ c : Nat, heldByClass
               | none => simp [evalLit] at hev; rw [← hev.1] at hvn; simp at hvn
               | int m => simp [evalLit] at hev; rw [← hev.1] at hvn; simp at hvn; rw [hvn]
               | list l => simp [evalLit] at hev; rw [← hev.1] at hvn; simp at hvn
+              | tup ls => simp [evalLit] at hev; rw [← hev.1] at hvn; simp at hvn
             have hc : c < w.cells.length :=
               hb c (resolve_held hr c (by simp [PObj.cells]; exact Or.inr ⟨_, aget_mem ho⟩))
             rw [hd1 c hc]
@@ -1343,6 +1372,16 @@ theorem setupKwargs_frame (w : World) (k : ClsId) (hb : ∀ c : Nat, heldByClass
           subst this
           exact setupKwargs_frame w k hb rest _ _ vals' cells' err h (by simp; omega) hd1
             (fun e he => hs e (by simp [he]))
+
+/-- the copies `deepcopy` makes of the items of a tuple hold what the items hold -/
+theorem deref_copies (cells : List (List Int)) (ds : List CellId) :
+    ((List.range ds.length).map (cells.length + ·)).map (deref (cells ++ ds.map (deref cells))) =
+      ds.map (deref cells) := by
+  apply List.ext_getElem
+  · simp
+  · intro j h1 h2
+    simp at h1
+    simp [deref, h1]
 
 /-- `_setup_params` before the keyword loop, for a parameter whose class Parameter is `P` (`ov0`: what
 the table held before, i.e. nothing): `instantiate` → an equal but new container (or the same int);
@@ -1354,6 +1393,8 @@ def InitOK (w : World) (cells' : List (List Int)) (P : PObj) (ov0 ov : Option Va
     | .int n => ov = some (.int n)
     | .ref d => ∃ c' : Nat, ov = some (.ref c') ∧ w.cells.length ≤ c' ∧ c' < cells'.length ∧
         deref cells' c' = deref w.cells d
+    | .tup ds => ∃ cs' : List Nat, ov = some (.tup cs') ∧ (∀ c' ∈ cs', w.cells.length ≤ c' ∧ c' < cells'.length) ∧
+        cs'.map (deref cells') = ds.map (deref w.cells)
   else if P.constant then ov = some P.default
   else ov = ov0
 
@@ -1368,6 +1409,11 @@ theorem InitOK.mono {w : World} {cells' extra : List (List Int)} {P : PObj} {ov0
     · rename_i d hd; simp only [hd] at h
       obtain ⟨c', h1, h2, h3, h4⟩ := h
       exact ⟨c', h1, h2, by simp; omega, by rw [deref_append_lt h3]; exact h4⟩
+    · rename_i ds hd; simp only [hd] at h
+      obtain ⟨cs', h1, h2, h3⟩ := h
+      refine ⟨cs', h1, fun c' hc' => ⟨(h2 c' hc').1, by have := (h2 c' hc').2; simp; omega⟩, ?_⟩
+      rw [← h3]
+      exact List.map_congr_left (fun c' hc' => deref_append_lt (h2 c' hc').2)
   · rename_i hi; simp only [hi] at h; exact h
 
 /-- the `ov0` argument only matters in the "nothing stored" case -/
@@ -1390,7 +1436,7 @@ theorem setupValues_step (w : World) (k : ClsId) (x0 : Name) (xs : List Name) (e
     ∃ vals1 e1, setupValues w k xs (w.cells ++ e1) vals1 = (vals', cells') ∧
       (∀ y, y ≠ x0 → aget vals1 y = aget vals y) ∧
       (∀ (k' : ClsId) (P : PObj), w.resolve k x0 = some (k', P) →
-        (∀ d : Nat, P.default = .ref d → d < w.cells.length) →
+        (∀ d : Nat, d ∈ P.default.cells → d < w.cells.length) →
         InitOK w (w.cells ++ e1) P (aget vals x0) (aget vals1 x0) ∧
         (P.instantiate = false → P.constant = false → vals1 = vals)) := by
   simp only [setupValues] at h
@@ -1422,12 +1468,29 @@ theorem setupValues_step (w : World) (k : ClsId) (x0 : Name) (xs : List Name) (e
           fun y hy => aget_aset_ne _ _ (fun e => hy e.symm), ?_⟩
         intro k' P hr' hdb
         rw [hr] at hr'; simp at hr'; obtain ⟨_, rfl⟩ := hr'
-        have hdl := hdb d hdef
+        have hdl := hdb d (by simp [hdef, Val.cells])
         refine ⟨?_, by simp [hi]⟩
         simp only [InitOK, hi, hdef, aget_aset_self, if_true]
         refine ⟨(w.cells ++ e).length, by simp, by simp, by simp, ?_⟩
         rw [deref_append_lt hdl]
         simp [deref]
+      | tup ds =>
+        simp [deepcopyVal, hdef] at hd; obtain ⟨rfl, rfl⟩ := hd
+        refine ⟨_, e ++ ds.map (deref (w.cells ++ e)), by simpa using h,
+          fun y hy => aget_aset_ne _ _ (fun e => hy e.symm), ?_⟩
+        intro k' P hr' hdb
+        rw [hr] at hr'; simp at hr'; obtain ⟨_, rfl⟩ := hr'
+        refine ⟨?_, by simp [hi]⟩
+        simp only [InitOK, hi, hdef, aget_aset_self, if_true]
+        refine ⟨_, rfl, ?_, ?_⟩
+        · intro c' hc'
+          simp only [List.mem_map, List.mem_range] at hc'
+          obtain ⟨j, hj, rfl⟩ := hc'
+          simp; omega
+        · have h1 := deref_copies (w.cells ++ e) ds
+          simp only [List.length_append] at h1
+          rw [← List.append_assoc, h1]
+          exact List.map_congr_left (fun d hd => deref_append_lt (hdb d (by simp [hdef, Val.cells, hd])))
     · rename_i hi
       split at h
       · rename_i hc
@@ -1463,7 +1526,7 @@ theorem setupValues_get (w : World) (k : ClsId) :
     setupValues w k xs (w.cells ++ e) vals = (vals', cells') →
     ∀ x : Name, (x ∉ xs → aget vals' x = aget vals x) ∧
       (x ∈ xs → ∀ (k' : ClsId) (P : PObj), w.resolve k x = some (k', P) →
-        (∀ d : Nat, P.default = .ref d → d < w.cells.length) → InitOK w cells' P (aget vals x) (aget vals' x))
+        (∀ d : Nat, d ∈ P.default.cells → d < w.cells.length) → InitOK w cells' P (aget vals x) (aget vals' x))
   | [], e, vals, vals', cells', h, x => by
     simp [setupValues] at h; obtain ⟨rfl, rfl⟩ := h; simp
   | x0 :: xs, e, vals, vals', cells', h, x => by
@@ -1568,7 +1631,7 @@ theorem doMkInst_values {w : World} {k : ClsId} {kwargs : List (Name × Lit)}
       have hsv' : setupValues w k (w.visible k) (w.cells ++ []) [] = (vals0, cells0) := by simpa using hsv
       obtain ⟨_, hget⟩ := setupValues_get w k _ [] [] vals0 cells0 hsv' x
       obtain ⟨e0, he0⟩ := setupValues_cells w k _ _ _ _ _ hsv
-      have hinit := hget hx k' P hr (fun d hd => hb d (resolve_held hr d (by simp [PObj.cells, hd, Val.cells])))
+      have hinit := hget hx k' P hr (fun d hd => hb d (resolve_held hr d (by simp [PObj.cells, hd])))
       obtain ⟨hk1, hk2, hl⟩ := setupKwargs_get w k hb kwargs cells0 vals0 vals1 cells1 none hsk
       simp only
       rw [hk1 rfl x hkw]
@@ -1583,6 +1646,11 @@ theorem doMkInst_values {w : World} {k : ClsId} {kwargs : List (Name × Lit)}
           · rename_i d hd; simp only [hd] at hinit
             obtain ⟨c', h1, h2, h3, h4⟩ := hinit
             exact ⟨c', h1, h2, by omega, by rw [hk2 c' h2 h3]; exact h4⟩
+          · rename_i ds hd; simp only [hd] at hinit
+            obtain ⟨cs', h1, h2, h3⟩ := hinit
+            refine ⟨cs', h1, fun c' hc' => ⟨(h2 c' hc').1, by have := (h2 c' hc').2; omega⟩, ?_⟩
+            rw [← h3]
+            exact List.map_congr_left (fun c' hc' => hk2 c' (h2 c' hc').1 (h2 c' hc').2)
         · rename_i hi; simp only [hi] at hinit; exact hinit
 
 
@@ -1614,10 +1682,29 @@ theorem doMutVal_frame (w : World) (t : Target) (x : Name) (n : Int) :
   · exact ⟨rfl, rfl, rfl, fun _ _ => rfl⟩
   · exact ⟨rfl, rfl, rfl, fun _ _ => rfl⟩
   · exact ⟨rfl, rfl, rfl, fun _ _ => rfl⟩
+  · exact ⟨rfl, rfl, rfl, fun _ _ => rfl⟩
   · rename_i c0 hr
     refine ⟨rfl, rfl, by simp, ?_⟩
     intro c hc
     exact deref_set_ne (fun e => hc (by rw [hr, e]))
+
+/-- `target.x[i].append(v)` changes the contents of one container — item `i` of the tuple `target.x` evaluates to —
+and nothing else -/
+theorem doMutItem_frame (w : World) (t : Target) (x : Name) (i : Nat) (n : Int) :
+    (doMutItem w t x i n).1.classes = w.classes ∧ (doMutItem w t x i n).1.insts = w.insts ∧
+    (doMutItem w t x i n).1.cells.length = w.cells.length ∧
+    ∀ c : Nat, (∀ cs, w.read t x = some (.tup cs) → cs[i]? ≠ some c) →
+      deref (doMutItem w t x i n).1.cells c = deref w.cells c := by
+  unfold doMutItem
+  split
+  · rename_i cs hr
+    split
+    · rename_i c0 hc0
+      refine ⟨rfl, rfl, by simp, ?_⟩
+      intro c hc
+      exact deref_set_ne (fun e => hc cs hr (by rw [hc0, e]))
+    · exact ⟨rfl, rfl, rfl, fun _ _ => rfl⟩
+  · exact ⟨rfl, rfl, rfl, fun _ _ => rfl⟩
 
 /-- every operation is a step on behalf of the classes or of one instance -/
 theorem step_effect (w : World) (op : Op) : ∃ h, Effect w (step w op).1 h := by
@@ -1632,6 +1719,11 @@ theorem step_effect (w : World) (op : Op) : ∃ h, Effect w (step w op).1 h := b
     obtain ⟨cells', h1, h2⟩ := doMutVal_cells w t x n
     refine ⟨none, ?_⟩
     show Effect w (doMutVal w t x n).1 none
+    rw [h1]; exact Effect.of_cells_ext _ (by rw [h2]; exact Nat.le_refl _)
+  | mutItem t x i n =>
+    obtain ⟨cells', h1, h2⟩ := doMutItem_cells w t x i n
+    refine ⟨none, ?_⟩
+    show Effect w (doMutItem w t x i n).1 none
     rw [h1]; exact Effect.of_cells_ext _ (by rw [h2]; exact Nat.le_refl _)
   | access i x => exact ⟨_, (doAccess_effect w i x).toEffect⟩
   | slotSet t x s =>
